@@ -150,6 +150,16 @@ def generate(loader):
     d2 = L.tversky_loss(x, y, alpha=E.const(0.5), beta=E.const(0.5), epsilon=eps, reduction="none")
     if not trlib.same_tensor(d1.a, d2.a):
         raise TraceError("tversky_loss: default alpha/beta are not 1/2")
+    # channel glue: two-channel prediction with a one-channel binary target uses the FOREGROUND channel 1, and a
+    # one-channel prediction with a two-channel one-hot target uses the target's channel 1
+    x1c, y1c = sym("x", (1, 1, 1, 2)), sym("y", (1, 1, 1, 2))
+    out.append(emit("gen_tversky_p2t1", ["al", "be", "eps"], [("x", x2), ("y", y1c)],
+                    L.tversky_index(x2, y1c, alpha=al, beta=be, epsilon=eps, reduction="none"),
+                    "tversky_index: prediction (1, 2, 1, 2), target (1, 1, 1, 2)"))
+    out.append(emit("gen_tversky_p1t2", ["al", "be", "eps"], [("x", x1c), ("y", y2)],
+                    L.tversky_index(x1c, y2, alpha=al, beta=be, epsilon=eps, reduction="none"),
+                    "tversky_index: prediction (1, 1, 1, 2), one-hot target (1, 2, 1, 2)"))
+    attempt("tversky_index_p3_t1", lambda: L.tversky_index(sym("x", (1, 3, 1, 2)), y1c, epsilon=eps))
     attempt("tversky_index_binary_weight", lambda: L.tversky_index(x, y, weight=w, epsilon=eps))
     attempt("tversky_loss", lambda: L.tversky_loss(x, y, epsilon=eps))
     attempt("tversky_loss_gamma_half", lambda: L.tversky_loss(x, y, gamma=0.5, epsilon=eps))
